@@ -125,6 +125,7 @@ def run(chk):
     chk.assumptions = ["delays are workload, not verdicts: results are compared on data only", "text-only calls (read_line, read_to_string) are "
                        "issued on UTF-8 content only", "a negative byte count is not generated"]
     chk.floor = 500
+    chk.rule += '; plus 2-3 append handles on one file with interleaved flushed writes, byte arrays / packets at and beyond the write-buffer size after pending small writes'
     work = core.scratch_dir()
     try:
         cases = []
